@@ -171,8 +171,10 @@ CookieBase(ck) == IF ck = 512 THEN 168 ELSE 104     \* 6 + 16 nonce + 2 + 2 * ke
 \* each cookie / placeholder among them that is at least as long as a fresh cookie
 Fresh(items, p) ==
   LET all == [j \in 1..Len(p.aut) |-> items[p.aut[j]]] \o p.enc
-      f8  == SubSeq(all, 1, Min(8, Len(all)))
-  IN Len(SelectSeq(f8, LAMBDA f : f.k \in {"cookie", "ph"} /\ f.n >= CookieBase(p.ck)))
+      \* (as repaired by the fix for finding F-16: the cookie / placeholder fields that fit are selected first and
+      \*  then limited to eight; before the fix only the first eight request fields were looked at)
+      fit == SelectSeq(all, LAMBDA f : f.k \in {"cookie", "ph"} /\ f.n >= CookieBase(p.ck))
+  IN Min(8, Len(fit))
 
 Written(ver, kind, echo, nc, base) ==
   IF ver = 3 THEN 48
@@ -215,7 +217,8 @@ Decide(s, a) ==
                ELSE <<"time", "Policy">>
       p == Parse(b)
   IN IF first[1] = "ignore" THEN IgnoreD(Stat(fb, FALSE, first[2], "Ignore"))
-     ELSE IF p.res = "err" \/ (p.res = "ok" /\ b.mode # 3) THEN IgnoreD(Stat(fb, FALSE, "ParseError", "Ignore"))
+     \* (the mode test also on the decrypt-error path: fix for finding F-3)
+     ELSE IF p.res = "err" \/ (p.res \in {"ok", "dec"} /\ b.mode # 3) THEN IgnoreD(Stat(fb, FALSE, "ParseError", "Ignore"))
      ELSE LET act1 == IF p.res = "dec" /\ first[1] # "deny" THEN <<"nak", "InvalidCrypto">> ELSE first
               ck   == IF p.res = "ok" THEN p.ck ELSE 0
               nts  == ck # 0 \/ act1[1] = "nak"
